@@ -100,6 +100,7 @@ func main() {
 	progressMonitor()
 	debug.SetGCPercent(1000)
 	debug.SetMemoryLimit(3 << 30)
+	defer cleanupDBs()
 	switch os.Args[1] {
 	case "explore":
 		cmdExplore(os.Args[2:])
@@ -118,6 +119,9 @@ func makeExplorer(name, cfgs string, bound int, cache bool) (*vsched.Explorer, *
 		fail("unknown scenario %s", name)
 	}
 	cfg := parseCfg(cfgs)
+	if scen.DB == nil && (strings.Contains(name, "badger") || strings.HasPrefix(name, "IX")) {
+		scen.DB = openDB()
+	}
 	body, spec := sc.Make(cfg)
 	ex := &vsched.Explorer{
 		Cfg:   vsched.Config{SymSites: []string{"startWorker"}},
